@@ -133,6 +133,8 @@ def C20():
                                                        (r"^mcs::<impl at src/core/mcs\.rs[^>]*>::read$", r"x224::Client::<S>::read$", "x224::Client::read"),
                                                        (r"^x224::<impl at src/core/x224\.rs[^>]*>::read$", r"tpkt::Client::<S>::read$", "tpkt::Client::read")]))),
     ]
+    jobs.append(MirJob("c20_mir_link_read_terminates", "model/link.rs: no function of the link layer contains a loop of its own (reads go through read / read_exact of the stream, which end on end-of-stream): a connection that ends inside a frame makes RdpClient::read return an error instead of spinning",
+                       mirjobs.acyclic("src/model/link.rs", native=mirjobs.READ_ERROR_NATIVE)))
     return Prop("C20", [], jobs,
                 assumptions=["the environment of one loop iteration (socket readiness, stop flag written by the GUI thread, result of RdpClient::read) is an arbitrary value of its type",
                              "native replay: launch_rdp_thread is cut text-identically from src/bin/mstsc-rs.rs into a library test; wait_for_fd is stubbed to `true`, which is what select(2) reports for a closed or shut-down descriptor"],
@@ -228,7 +230,9 @@ def C09():
     ]
     for n, q, seg in (("2x2_raw", True, "raw2 / raw2"), ("2x2_split", True, "raw1,raw1 / raw2"), ("4x2_rawrun", True, "raw1+run3 / raw1+run3"),
                       ("3x2_run0", False, "run3 (of 0) / raw3 deltas"), ("4x3_mixed", False, "raw4 / run4 / raw1+run3"), ("16x1_long", True, "long run form 16"),
-                      ("18x2_long", False, "raw1 + long run 17 / long run 18")):
+                      ("18x2_long", False, "raw1 + long run 17 / long run 18"),
+                      ("3x2_raw_then_run", True, "raw3 / run3 (a later scanline starting with a run after arbitrary raw values: the run value restarts at 0)"),
+                      ("3x3_raw_run_run", False, "raw3 / run3 / raw1+run2")):
         jobs.append(Kani("c09_rle32_exact_" + n, "planar RLE, %s image, segmentation per plane {%s}, symbolic value bytes in all four planes: output equals the clean-room MS-RDPEGDI reference decoder, rows top-down, BGRA" % (n.split("_")[0], seg),
                          tiers=("quick", "thorough") if q else ("thorough",), bounds={"image": n.split("_")[0], "segmentation": seg}, symbolic=["every raw/delta byte of the four planes"],
                          functions=["codec::rle::rle_32_decompress", "codec::rle::process_plane"], timeout=900, mem_gb=8))
@@ -273,6 +277,8 @@ def C01():
                    mirjobs.cssp_order),
             MirJob("c01_mir_unseal", "the final-round reply is unsealed by gss_unwrapex whose plaintext is returned only through the checksum-match edge (decrypt cipher, verify key, first 8 HMAC bytes, polarity): shared with C16",
                    mirjobs.unwrap_order)]
+    jobs.append(MirJob("c01_mir_strict_der", "read_ts_server_challenge / read_ts_validate parse the server's TSRequest through the strict DER entry point (yasna::parse_der) and never through a BER one: a re-encoded (non-minimal, indefinite or segmented) last-round reply is a parse error",
+                       mirjobs.strict_der))
     return Prop("C01", [], jobs,
                 assumptions=["E2 admits every branch outcome (over-approximation): sound for must-precede claims",
                              "the arithmetic of num-bigint (from_bytes_le, +, !=) is trusted: a Kani harness on the extracted condition (lowering L5, kept in vrun.py) ran CBMC out of 12 GB even for 1-byte operands (Vec<u32> digit vectors of symbolic length)"],
@@ -469,6 +475,8 @@ def C04():
     jobs.append(MirJob("c04_mir_core_data_name", "gcc::client_core_data: the clientName computation has no reachable panicking slice/index/unwrap and no failing arithmetic for any name (length symbolic)",
                        mirjobs.multi(mirjobs.panic_sites([(r"^client_core_data$", [(r"Option::<ClientData>::unwrap_or$", 1, "default parameters")])], {r"^client_core_data$": mirjobs.CORE_DATA_NATIVE}),
                                      mirjobs.fn_asserts(r"^client_core_data$", "client name length", loop_bound=0), mirjobs.core_data_units)))
+    jobs.append(MirJob("c04_mir_tpkt_write", "tpkt::Client::write: the u16 handed to tpkt_header equals Message::length() and length()+4 fits 16 bits on every path that sends (else the message is refused and nothing is written): the TPKT length field never wraps",
+                       mirjobs.tpkt_write))
     return Prop("C04", [("core/per.rs", "per.rs"), ("core/tpkt.rs", "tpkt.rs"), ("core/x224.rs", "x224.rs"), ("core/mcs.rs", "mcs.rs"), ("core/gcc.rs", "gcc.rs"), ("core/global.rs", "global.rs")], jobs, lowerings=["L2"],
                 assumptions=[S1, S6, DEV, "L2 light error payloads", "the strict parser is the set of relations asserted in the harness (written from MS-RDPBCGR / T.125 / X.224), applied to the bytes the real Message::write produced"], stubs=[S1],
                 text="Byte-exact well-formedness of every emitter that is one component/trame deep, for all values of its numeric fields and symbolic payload bytes: each length/count field equals what it describes, fixed fields have their size and offset, the client name is 32 bytes NUL terminated for arbitrary Unicode scalars.",
@@ -518,6 +526,8 @@ def C05():
                      bounds={"header_bytes": 4}, symbolic=["head: [u8;4]"], functions=["core::tpkt::Client::read", "model::link::Link::read"], timeout=400, mem_gb=6))
     jobs.append(MirJob("c05_mir_tpkt_read_arith", "tpkt::Client::read (the first reader of every server byte): no arithmetic check of its own can fail for any header byte and any declared length, in both fast-path length forms and the slow-path form (SMT over all header values)",
                        mirjobs.fn_asserts(r"^tpkt::<impl at src/core/tpkt\.rs[^>]*>::read$", "TPKT / fast-path header", loop_bound=1, native=lambda m: mirjobs.TPKT_READ_NATIVE)))
+    jobs.append(MirJob("c05_mir_announced_sizes", "every counted field of the record layouts (17: AV pair, GCC channel array, licence preamble and blob, demand/confirm active, deactivate all, share headers, fast-path update, bitmap data, colour pointer, capability set): for every field value the size announced to the record container is the function the structure definition gives - v, max(v - k, 0) or 2 * v (SMT, z3 + cvc5)",
+                       mirjobs.announce_table({r"server_network_data": mirjobs.GCC_CONF_NATIVE, r"share_|ts_confirm|capability_set": mirjobs.EMIT_NATIVE, r"preamble|license": mirjobs.LICENSE_NATIVE})))
     return Prop("C05", [("core/per.rs", "per.rs"), ("core/tpkt.rs", "tpkt.rs"), ("core/x224.rs", "x224.rs"), ("core/mcs.rs", "mcs.rs"), ("core/gcc.rs", "gcc.rs")], jobs, lowerings=["L2"],
                 assumptions=[S1, S2, S6, DEV, "L2 light error payloads", "E3: call results and loads are unconstrained symbols (over-approximation); Component::length() of a block header = 4 (decided by c04_gcc_block_header)"], stubs=[S1, S2],
                 text="Hostile bytes at the parser entries reachable during connection setup, decided two ways on the real code: (E1) every byte string up to 4-8 bytes at the PER readers, attach-user/channel-join confirms, X.224 data header and the head of the GCC response; (E3) every value of every wire field that becomes a buffer size or an arithmetic operand in the licence/GCC/PER layouts.",
@@ -552,6 +562,8 @@ def C06():
                                                   r"^capability::<impl at src/core/capability\.rs[^>]*>::from_capability_set$")])))
     jobs.append(MirJob("c06_mir_read_layout_arrays", "no record constructor builds its default array with Array::from_trame (whose element factory panics on the first element read): every layout a server PDU can be parsed into reads its arrays through a real factory",
                        mirjobs.no_from_trame_in_layouts))
+    jobs.append(MirJob("c06_mir_announced_sizes", "every counted field of the record layouts (17: AV pair, GCC channel array, licence preamble and blob, demand/confirm active, deactivate all, share headers, fast-path update, bitmap data, colour pointer, capability set): for every field value the size announced to the record container is the function the structure definition gives - v, max(v - k, 0) or 2 * v (SMT, z3 + cvc5)",
+                       mirjobs.announce_table({r"server_network_data": mirjobs.GCC_CONF_NATIVE, r"share_|ts_confirm|capability_set": mirjobs.EMIT_NATIVE, r"preamble|license": mirjobs.LICENSE_NATIVE})))
     return Prop("C06", [("core/tpkt.rs", "tpkt.rs"), ("core/x224.rs", "x224.rs")], jobs, lowerings=["L2"],
                 assumptions=[S1, S6, DEV, "L2 light error payloads", "E3: the wire field of each closure is an unconstrained symbol"], stubs=[S1],
                 text="Kernel of the property: (E3) for every layout of global.rs/capability.rs that turns a wire field into a buffer size or a skip decision, all 65536 (256) field values: no panicking arithmetic, bounded size; (E1) x224 / tpkt header parsing on every header / payload up to 6 bytes; (E3) mcs::Client::read's own arithmetic. These subtractions are where a hostile length crashes a session.",
@@ -592,6 +604,8 @@ def C18():
                        mirjobs.gcc_conference))
     jobs.append(MirJob("c18_mir_version_table", "gcc::Version::from over every u32 (SMT): each wire value of the enum decodes to the variant that is written as that value, and no other value decodes to such a variant",
                        mirjobs.version_table))
+    jobs.append(MirJob("c18_mir_announced_sizes", "every counted field of the record layouts (17: AV pair, GCC channel array, licence preamble and blob, demand/confirm active, deactivate all, share headers, fast-path update, bitmap data, colour pointer, capability set): for every field value the size announced to the record container is the function the structure definition gives - v, max(v - k, 0) or 2 * v (SMT, z3 + cvc5)",
+                       mirjobs.announce_table({r"server_network_data": mirjobs.GCC_CONF_NATIVE, r"share_|ts_confirm|capability_set": mirjobs.EMIT_NATIVE, r"preamble|license": mirjobs.LICENSE_NATIVE})))
     return Prop("C18", [("core/per.rs", "per.rs"), ("model/data.rs", "data.rs")], jobs, lowerings=["L2"],
                 assumptions=[S1, S6, DEV, "L2 light error payloads"], stubs=[S1],
                 text="Bounded model checking of the real Message impls and PER primitives as encode/decode pairs over their full value domains: bytes written == length(), decode(encode(v)) == v, exact consumption, for every combinator at depth 1 and every PER primitive.",
